@@ -270,6 +270,7 @@ func TestC09Removed(t *testing.T) {
 		var (
 			gcInput  [][]oid.Address
 			delKnown []bool
+			wasRem   []bool
 		)
 		w.OnOp = func(op crashrig.Op, phase string, opErr error) {
 			r.Lock()
@@ -287,7 +288,9 @@ func TestC09Removed(t *testing.T) {
 				m.kinds = append(m.kinds, op.Kind)
 				if op.Kind == crashrig.KPut {
 					// someone stores it anew (or tries to): not tracked any more
+					// (if the put is REJECTED nothing was stored anew: tracked again at its end)
 					a := crashrig.RegAddr(op.C, op.I)
+					wasRem = append(wasRem, m.removed[a])
 					delete(m.removed, a)
 					delete(m.raced, a)
 					delete(m.resynced, a)
@@ -312,6 +315,12 @@ func TestC09Removed(t *testing.T) {
 				return
 			}
 			switch op.Kind {
+			case crashrig.KPut:
+				if wasRem[len(wasRem)-1] && opErr != nil {
+					m.complete(crashrig.RegAddr(op.C, op.I))
+					m.completions--
+				}
+				wasRem = wasRem[:len(wasRem)-1]
 			case crashrig.KGC:
 				for _, a := range gcInput[len(gcInput)-1] {
 					m.complete(a)
